@@ -160,6 +160,8 @@ def run_shards(binary, workload, extra, cases, secs, seed, tier, outdir, tag, pr
             # abnormal termination: attribute to the journaled case
             jn = read_journal(out)
             stderr_txt = open(out + ".stderr").read()[-3000:]
+            if "HARNESS PANIC outside a guarded call" in stderr_txt:
+                raise Infra(f"harness bug (panic outside a monitored call) in shard {i}, case {jn}: {stderr_txt[-800:]}")
             cap = "E57MON-ALLOC-CAP-HIT" in stderr_txt
             case = jn.get("case") if jn else None
             if case is None or case >= 2**63:
